@@ -151,6 +151,9 @@ def opers_att(i):
                 s.append((Token.Constant, str(op)))
         elif op._is_reg:
             s.append((Token.Register, "%{}".format(op)))
+        elif op._is_ptr:
+            # far pointer ptr16:16/ptr16:32 of jmpf/callf is $selector,$offset
+            s.append((Token.Address, "$%s,$%s" % (op.seg, op.base)))
         else:
             raise ValueError(op)
         s.append((Token.Literal, ", "))
